@@ -7,7 +7,7 @@ from harness.common import Check
 from translate import dispatch as t_disp, ops as t_ops
 
 THEOREMS = ["C09_ste_value", "C09_argmax_softmax", "C09_hard_equals_eval", "C09_hard_neuron", "C09_eval_table",
-            "C09_hard_walsh_value", "C09_gumbel_hard_single_gate", "C09_dispatch", "C09_eval_unchanged"]
+            "C09_hard_walsh_value", "C09_gumbel_hard_single_gate", "C09_dispatch", "C09_eval_unchanged", "C09_sampling_source"]
 TRUSTED = [
     "Coq 8.16.1 kernel/coqc; theorems over R depend on the standard-library Reals axioms and Classical_Prop.classic; dispatch theorems closed",
     "translators translate/dispatch.py, translate/ops.py",
@@ -79,7 +79,9 @@ def run(ck: Check):
     # near-tied logits and extreme temperatures: the hard gate is the argmax of the LOGITS (as in eval), not of the rounded softmax (F30)
     from torchlogix.layers import LogicConv2d as _C2
     tie_cases = [("residual-init-T1e9", None, 1e9), ("two-ulps-apart-T30", {3: 5.0, 12: 5.0000005}, 30.0),
-                 ("tiny-gap-T1", {5: 0.01, 9: 0.010000001}, 1.0), ("large-logits-T1e-3", {2: 40.0, 7: 40.000004}, 1e-3)]
+                 ("tiny-gap-T1", {5: 0.01, 9: 0.010000001}, 1.0), ("large-logits-T1e-3", {2: 40.0, 7: 40.000004}, 1e-3),
+                 # logits / temperature overflows the float range: softmax(inf, ...) is NaN unless the maximum is subtracted first
+                 ("residual-init-T1e-38", None, 1e-38), ("ordinary-logits-T1.2e-38", {4: 1.5, 11: -0.5, 6: 1.25}, 1.2e-38)]
     for name, logits, tau in tie_cases:
         for layer_kind in ("dense", "conv"):
             torch.manual_seed(ck.seed)
